@@ -214,7 +214,7 @@ def _judge_method(s, body, backend):
         probs += _judge_append(s, body, backend)
     # which part of the body / which array names carry lifetime r
     ret_ref_lt = None
-    if s.ret.name in ("&'r Op", "Option<&'r Op>", "&'r OpL<'s>", "Result<&'r Op, ()>"):
+    if s.ret.name in ("&'r Op", "Option<&'r Op>", "&'r OpL<'s>", "Result<&'r Op, ()>", "Result<(), &'r Op>"):
         ret_ref_lt = s.ret_l[0]
     plan = {}
     for r in exp:
@@ -228,6 +228,8 @@ def _judge_method(s, body, backend):
             plan = {}
             plan.setdefault(r, []).append((okb, [r]))
             plan.setdefault(e, []).append((errb, ["self", e]))
+        elif s.ret.name == "Result<(), &'r Op>":
+            plan = {s.ret_l[0]: [(errb, ["self", s.ret_l[0]])]}
         elif s.ret.name == "Result<u8, S2b<'r,'s>>":
             plan = {}
             for l in s.ret_l:
@@ -275,7 +277,7 @@ def _judge_nanobind(s, line):
         return []
     kept = {int(x) for x in re.findall(r"nb::keep_alive<0, (\d+)>\(\)", line)}
     names = []
-    if s.selff != "none":
+    if s.selff not in ("none", "static on OpL<'y>"):
         names.append("this")
     names += ["p%d" % i for i in range(len(s.params))]
     got = {names[k - 1] for k in kept if 0 < k <= len(names)}
